@@ -100,7 +100,7 @@ CHECKS = {
         technique="differential property-based testing (rapid): generic API vs. documented ID-based equivalent on lock-step worlds; generated adapters for all arities",
         ref="DESIGN.md section 5, C18"),
     "C19": dict(
-        text="Groups of 2-6 worlds with different universes (same type pools, different registration orders) and generated histories. Each history is run alone to get a reference trace; then all are interleaved step by step in one goroutine (after every step the hidden-state digest and observables of all other worlds must be unchanged) and run concurrently, one goroutine per world, in a race-detector build: no race report, no runtime fatal error, every trace equal to the reference. Shared-checkpoint part (TestC19Dump): 2-4 worlds load the same EntityDump value and run their own creation/removal scripts, compared with runs on private copies, interleaved and concurrently under the race detector.",
+        text="Groups of 2-6 worlds with different universes (same type pools, different registration orders) and generated histories. Each history is run alone to get a reference trace; then all are interleaved step by step in one goroutine (after every step the hidden-state digest and observables of all other worlds must be unchanged) and run concurrently, one goroutine per world, in a race-detector build: no race report, no runtime fatal error, every trace equal to the reference. Shared-checkpoint part (TestC19Dump): 2-4 worlds load the same EntityDump value and run their own creation/removal scripts, compared with runs on private copies, interleaved and concurrently under the race detector. Generic part (TestC19Generic): 2-5 histories of generic calls replayed concurrently, same verdict and final state as alone.",
         note="Goroutine schedules are sampled; the race detector compensates because it flags unsynchronised accesses that executed, independent of the exact interleaving. A race report or runtime fatal error cannot be shrunk: the replay file holds the group's histories and is re-run 20 times.",
         technique="property-based testing (rapid) with a differential oracle (alone vs. interleaved vs. concurrent) under the Go race detector",
         ref="DESIGN.md section 5, C19"),
